@@ -18,13 +18,31 @@ namespace Rfsm.Timer
 
 variable {δ ε : Type}
 
-/-- states reachable from a fresh session -/
-def Reachable (t : Timer δ ε) : Prop := ∃ (d : δ) (ops : List (Op δ ε)), t = (Timer.init d).run ops
+/-- states reachable from a fresh session (whatever its datamodel shares with its events) -/
+def Reachable (t : Timer δ ε) : Prop :=
+  ∃ (f : δ → ε → ε) (d : δ) (ops : List (Op δ ε)), t = (Timer.initWith f d).run ops
 
 theorem Reachable.wf {t : Timer δ ε} (h : Reachable t) : WF t := by
-  obtain ⟨d, ops, rfl⟩ := h
-  exact (WF.init d).run ops
+  obtain ⟨f, d, ops, rfl⟩ := h
+  exact (WF.initWith f d).run ops
 #assert_axioms Reachable.wf
+
+theorem Reachable.seen {t : Timer δ ε} (h : Reachable t) : Seen t := by
+  obtain ⟨f, d, ops, rfl⟩ := h
+  have h0 : Seen (Timer.initWith f d : Timer δ ε) := by intro x hx; simp [Timer.initWith] at hx
+  exact h0.run ops
+#assert_axioms Reachable.seen
+
+theorem Reachable.run {t : Timer δ ε} (h : Reachable t) (ops : List (Op δ ε)) : Reachable (t.run ops) := by
+  obtain ⟨f, d, ops0, rfl⟩ := h
+  refine ⟨f, d, ops0 ++ ops, ?_⟩
+  have : ∀ (u : Timer δ ε) (a b : List (Op δ ε)), (u.run a).run b = u.run (a ++ b) := by
+    intro u a b
+    induction a generalizing u with
+    | nil => rfl
+    | cons o a ih => exact ih (u.step o)
+  exact this _ _ _
+#assert_axioms Reachable.run
 
 /-! ## The clauses of the property -/
 
@@ -33,16 +51,22 @@ send does not target `#_internal` (otherwise `SendParameters::execute` aborts wi
 def Accepted (t : Timer δ ε) (tg : Str) (delay : Int) : Prop :=
   t.alive = true ∧ 0 ≤ delay ∧ ¬ (0 < delay ∧ tg = internalTarget)
 
-/-- (e)+(a) A `<send>` executed in state `t`: whatever happens afterwards (any schedule, in
-particular any later `assign`), a delivery of *that* send carries the event value built from the
-data at the time of the send, goes to the target evaluated then, and happens no earlier than
-`delay` after the send.  A send that is not carried out schedules and delivers nothing. -/
-def ClauseValueNotEarly : Prop :=
+/-- the value a `<send>` builds shares no container with the datamodel: reading it later through the
+sender's data gives the same value (true of numbers, strings, booleans; NOT of an array or map taken
+by `<param location>` / `namelist`) -/
+def NoSharing (t : Timer δ ε) (mk : δ → ε) : Prop := ∀ d', t.deref d' (mk t.data) = mk t.data
+
+/-- (e)+(a), parametrised by the side condition on the payload.  A `<send>` executed in state `t`:
+whatever happens afterwards (any schedule, in particular any later `assign`), the receiver of a
+delivery of *that* send reads the event value built from the data at the time of the send; the
+delivery goes to the target evaluated then, and happens no earlier than `delay` after the send.
+A send that is not carried out schedules and delivers nothing. -/
+def ClauseValueNotEarly (side : ∀ (δ ε : Type), Timer δ ε → (δ → ε) → Prop) : Prop :=
   ∀ (δ ε : Type) (t : Timer δ ε), Reachable t →
   ∀ (id : Option SendId) (tg : Str) (delay : Int) (mk : δ → ε),
-  (Accepted t tg delay →
+  (Accepted t tg delay → side δ ε t mk →
     ∀ (ops : List (Op δ ε)), ∀ d ∈ ((t.send id tg delay mk).run ops).log, d.entry.seq = t.nextSeq →
-      d.entry.event = mk t.data ∧ d.entry.target = tg ∧ d.entry.sendid = id ∧
+      d.seen = mk t.data ∧ d.entry.event = mk t.data ∧ d.entry.target = tg ∧ d.entry.sendid = id ∧
       (t.now : Int) + delay ≤ d.time) ∧
   (¬ Accepted t tg delay →
     (t.send id tg delay mk).pending = t.pending ∧ (t.send id tg delay mk).log = t.log ∧
@@ -112,7 +136,7 @@ def ClauseDuration : Prop :=
 
 /-- The property at full strength. -/
 def C16_full : Prop :=
-  ClauseValueNotEarly ∧ ClauseOrdered ∧ ClauseAtMostOnce ∧
+  ClauseValueNotEarly (fun _ _ _ _ => True) ∧ ClauseOrdered ∧ ClauseAtMostOnce ∧
   ClauseExactlyOnce (fun _ _ _ _ _ => True) ∧
   ClauseCancel ∧ ClauseOtherSession ∧ ClauseTerminate ∧ ClauseDuration
 
@@ -121,16 +145,17 @@ is pending (`idsFresh`, decidable on a concrete schedule). -/
 def distinctIds : ∀ (δ ε : Type), Timer δ ε → Entry ε → List (Op δ ε) → Prop :=
   fun _ _ t _ ops => idsFresh t ops = true
 
-/-- What holds of the unchanged code: everything, with "exactly once" under `distinctIds` and
-"termination discards" from the moment the timer thread has seen the `Stop` message. -/
+/-- What holds of the unchanged code: everything, with "the receiver reads the value built at send
+time" for payloads that share no container with the datamodel, "exactly once" under `distinctIds`
+and "termination discards" from the moment the timer thread has seen the `Stop` message. -/
 def C16_partial_statement : Prop :=
-  ClauseValueNotEarly ∧ ClauseOrdered ∧ ClauseAtMostOnce ∧
+  ClauseValueNotEarly (fun _ _ t mk => NoSharing t mk) ∧ ClauseOrdered ∧ ClauseAtMostOnce ∧
   ClauseExactlyOnce distinctIds ∧
   ClauseCancel ∧ ClauseOtherSession ∧ ClauseTerminateStop ∧ ClauseDuration
 
 /-! ## Proofs -/
 
-theorem C16_value_not_early : ClauseValueNotEarly := by
+theorem C16_value_not_early : ClauseValueNotEarly (fun _ _ t mk => NoSharing t mk) := by
   intro δ ε t hr id tg delay mk
   have hB : ¬ Accepted t tg delay →
       (t.send id tg delay mk).pending = t.pending ∧ (t.send id tg delay mk).log = t.log ∧
@@ -149,7 +174,19 @@ theorem C16_value_not_early : ClauseValueNotEarly := by
     apply hna
     refine ⟨by simpa using h1, by omega, h3⟩
   refine ⟨?_, hB⟩
-  intro hacc ops d hd hseq
+  intro hacc hshare ops d hd hseq
+  -- what the receiver reads: the captured event through the (constant) deref at some later data
+  have hseen : d.entry.event = mk t.data → d.seen = mk t.data := by
+    intro hev
+    have hr' : Reachable ((t.send id tg delay mk).run ops) := by
+      have : (t.send id tg delay mk).run ops = t.run (.send id tg delay mk :: ops) := rfl
+      rw [this]; exact hr.run _
+    obtain ⟨dat, hdat⟩ := hr'.seen d hd
+    have hde : ((t.send id tg delay mk).run ops).deref = t.deref := by
+      have : (t.send id tg delay mk).run ops = t.run (.send id tg delay mk :: ops) := rfl
+      rw [this]; exact run_deref _ _
+    rw [hdat, hde, hev]
+    exact hshare dat
   obtain ⟨halive, hnn, hni⟩ := hacc
   have hw := hr.wf
   -- the state right after the send
@@ -173,7 +210,7 @@ theorem C16_value_not_early : ClauseValueNotEarly := by
         subst k
         have h1 := htime.1
         simp only at h1
-        exact ⟨rfl, rfl, rfl, by simp only; omega⟩
+        exact ⟨hseen rfl, rfl, rfl, rfl, by simp only; omega⟩
     · have := hw.pseq _ k; omega
     · simp only at k; omega
   · rename_i hz
@@ -184,11 +221,13 @@ theorem C16_value_not_early : ClauseValueNotEarly := by
       · rfl
       · have := hw.pseq x hx; omega
     have fin : d.entry = (⟨t.now + delay.toNat, t.nextSeq, id, tg, mk t.data⟩ : Entry ε) →
-        d.entry.event = mk t.data ∧ d.entry.target = tg ∧ d.entry.sendid = id ∧ (t.now : Int) + delay ≤ d.time := by
+        d.seen = mk t.data ∧ d.entry.event = mk t.data ∧ d.entry.target = tg ∧ d.entry.sendid = id ∧
+        (t.now : Int) + delay ≤ d.time := by
       intro he
       have h1 := htime.1
+      have hs := hseen (by rw [he])
       rw [he] at h1 ⊢
-      exact ⟨rfl, rfl, rfl, by simp only at h1 ⊢; omega⟩
+      exact ⟨hs, rfl, rfl, rfl, by simp only at h1 ⊢; omega⟩
     cases id with
     | none =>
       simp only at key
@@ -387,7 +426,7 @@ theorem C16_counterexample : ¬ C16_full := by
   have hex := h.2.2.2.1
   -- the state after the first send; the second send, the tick are the schedule
   let t1 : Timer Nat Nat := (Timer.init 0).send (some [88]) [] 100 (fun _ => 1)
-  have hr : Reachable t1 := ⟨0, [.send (some [88]) [] 100 (fun _ => 1)], rfl⟩
+  have hr : Reachable t1 := ⟨fun _ e => e, 0, [.send (some [88]) [] 100 (fun _ => 1)], rfl⟩
   let e1 : Entry Nat := ⟨100, 0, some [88], [], 1⟩
   have he : e1 ∈ t1.pending := by decide
   have := hex Nat Nat t1 hr e1 he [.send (some [88]) [] 200 (fun _ => 2), .tick 300]
@@ -406,12 +445,33 @@ def stopLatencyScript : List (Op Nat Nat) := [.tick 50, .terminate, .tick 100, .
 theorem C16_counterexample_stop_latency : ¬ ClauseTerminate := by
   intro h
   let t1 : Timer Nat Nat := ((Timer.init 0).send none [] 100 (fun _ => 1)).tick 50
-  have hr : Reachable t1 := ⟨0, [.send none [] 100 (fun _ => 1), .tick 50], rfl⟩
+  have hr : Reachable t1 := ⟨fun _ e => e, 0, [.send none [] 100 (fun _ => 1), .tick 50], rfl⟩
   have := h Nat Nat t1 hr [.tick 100, .wake, .stop]
   have hl := congrArg List.length this
   revert hl
   decide
 #assert_axioms C16_counterexample_stop_latency
+
+/-- An array or map handed to `<send>` by `<param location=…>` (or `namelist`) is cloned
+shallowly: its elements stay shared with the sender's datamodel.  Event type `(isRef, value)`;
+a reference reads the datum as it is when the receiver looks at it. -/
+def sharedDeref : Nat → Bool × Nat → Bool × Nat := fun d e => if e.1 then (true, d) else e
+
+def sharedScript : List (Op Nat (Bool × Nat)) := [.assign (fun _ => 99), .tick 200, .wake]
+
+theorem C16_counterexample_shared_container : ¬ ClauseValueNotEarly (fun _ _ _ _ => True) := by
+  intro h
+  let t0 : Timer Nat (Bool × Nat) := Timer.initWith sharedDeref 1
+  have hr : Reachable t0 := ⟨sharedDeref, 1, [], rfl⟩
+  have hlog : ((t0.send none [] 200 (fun x => (true, x))).run sharedScript).log =
+      [⟨200, true, ⟨200, 0, none, [], (true, 1)⟩, (true, 99)⟩] := by decide
+  have := (h Nat (Bool × Nat) t0 hr none [] 200 (fun x => (true, x))).1
+    ⟨rfl, by decide, by decide⟩ trivial sharedScript
+    ⟨200, true, ⟨200, 0, none, [], (true, 1)⟩, (true, 99)⟩ (by rw [hlog]; exact List.mem_cons_self ..) rfl
+  have hs := this.1
+  revert hs
+  decide
+#assert_axioms C16_counterexample_shared_container
 
 theorem C16_partial : C16_partial_statement :=
   ⟨C16_value_not_early, C16_ordered, C16_at_most_once, C16_exactly_once_distinct_ids,
@@ -449,6 +509,10 @@ example : ((Timer.init 0 : Timer Nat Nat).run
 -- the same id may be re-used once the earlier send has been delivered
 example : idsFresh (Timer.init 0 : Timer Nat Nat)
     [.send (some [65]) [] 100 (fun _ => 1), .tick 100, .wake, .send (some [65]) [] 100 (fun _ => 2)] = true := by decide
+-- scalar payloads satisfy `NoSharing`; a shared container does not
+example : NoSharing (Timer.init 5 : Timer Nat Nat) (fun x => x) := fun _ => rfl
+example : ¬ NoSharing (Timer.initWith sharedDeref 1) (fun x => (true, x)) := by
+  intro h; have := h 2; revert this; decide
 -- durations ("6.7s", ".5s", "1Sx", "x1S", "5", "1.5.5s")
 example : parseDuration [54, 46, 55, 115] = 6700 := by decide
 example : parseDuration [46, 53, 115] = 500 := by decide
